@@ -1,6 +1,7 @@
 package main
 
 import (
+	"bytes"
 	"encoding/json"
 	"errors"
 	"fmt"
@@ -10,6 +11,7 @@ import (
 	"time"
 
 	"github.com/ddddddO/gtree"
+	"github.com/fatih/color"
 
 	"verifharness/enum"
 	"verifharness/fsx"
@@ -86,6 +88,80 @@ func c12Call(entry, in string, jail *fsx.Jail) (out string, err error, pan strin
 		})
 	}
 	return
+}
+
+var c12MatrixOpts = []string{"json", "yaml", "toml", "dry", "exts", "strict", "noiter", "massive", "fmt", "nil"}
+
+func c12OptionMatrix(c *rep.Ctx) {
+	docs := []string{"", "- a\n", "- a\n  - b\n", "- a\n  - b.go\n- c\n", "- a/b\n", "- a\n  -\n", "# h\n- a\n", "- a\n      - b\n"}
+	eps := []string{"out", "mkdir", "verify", "walk", "outroot", "mkdirroot", "verifyroot", "walkroot", "iterroot"}
+	c.Bound("option_subsets", fmt.Sprint(1<<len(c12MatrixOpts)))
+	for bits := 0; bits < 1<<len(c12MatrixOpts) && !c.Expired(); bits++ {
+		if !c.Take() {
+			continue
+		}
+		var names []string
+		for i, o := range c12MatrixOpts {
+			if bits&(1<<i) != 0 {
+				names = append(names, o)
+			}
+		}
+		spec := strings.Join(names, ",")
+		massive := strings.Contains(spec, "massive")
+		c.StateN(1)
+		c.Inc("option_subsets")
+		j := fsx.NewJail("c12m")
+		for _, doc := range docs {
+			for _, ep := range eps {
+				if strings.HasSuffix(ep, "root") && doc != docs[1] {
+					continue // the From-Root entry points take a tree, not a document: once per subset
+				}
+				c12Current.Store(ep + " options=" + spec + " " + fmt.Sprintf("%q", doc))
+				c12Tick.Add(1)
+				opts := append([]gtree.Option{gtree.WithTargetDir(j.Target)}, extraOpts(spec, "")...)
+				var buf bytes.Buffer
+				pan := guardMaybeMassive(massive, func() {
+					old := color.Output
+					color.Output = &buf
+					defer func() { color.Output = old }()
+					root := gtree.NewRoot("r")
+					root.Add("a").Add("b.go")
+					root.Add("x/y")
+					cb := func(w *gtree.WalkerNode) error { _ = w.Row() + w.Path() + w.Branch(); return nil }
+					switch ep {
+					case "out":
+						gtree.OutputFromMarkdown(&buf, strings.NewReader(doc), opts...)
+					case "mkdir":
+						gtree.MkdirFromMarkdown(strings.NewReader(doc), opts...)
+					case "verify":
+						gtree.VerifyFromMarkdown(strings.NewReader(doc), opts...)
+					case "walk":
+						gtree.WalkFromMarkdown(strings.NewReader(doc), cb, opts...)
+					case "outroot":
+						gtree.OutputFromRoot(&buf, root, opts...)
+					case "mkdirroot":
+						gtree.MkdirFromRoot(root, opts...)
+					case "verifyroot":
+						gtree.VerifyFromRoot(root, opts...)
+					case "walkroot":
+						gtree.WalkFromRoot(root, cb, opts...)
+					case "iterroot":
+						for w, e := range gtree.WalkIterFromRoot(root, opts...) {
+							if e != nil {
+								break
+							}
+							_ = w.Row()
+						}
+					}
+				})
+				c.Eval()
+				if pan != "" {
+					c.Violation("C12|panic-or-hang|option-matrix|"+ep, fmt.Sprintf("entry %s with options {%s} on %q: %s", ep, spec, doc, pan), bits, nil)
+				}
+			}
+		}
+		j.Remove()
+	}
 }
 
 type brokenWriter struct{}
@@ -217,8 +293,8 @@ func init() {
 			"- a\r\n  - b\r\n\r\n- c",
 			"\n\n- a\n   \n  - b\n",
 			"- gtree\n\t- cmd\n\t\t- gtree\n\t\t\t- main.go\n\t- Makefile\n",
-			"\xef\xbb\xbf- a\n  - b\n",  // UTF-8 byte order mark
-			"- a\x00b\n  - \x00\n- c\n", // NUL bytes
+			"\xef\xbb\xbf- a\n  - b\n",      // UTF-8 byte order mark
+			"- a\x00b\n  - \x00\n- c\n",     // NUL bytes
 			"\xff\xfe-\x00 \x00a\x00\n\x00", // UTF-16 text given by mistake
 		}
 		for _, s := range seeds {
@@ -256,6 +332,10 @@ func init() {
 				}
 			}
 		}
+		// Part 4: every subset of the ten options at every entry point (From-Markdown and From-Root), on eight small
+		// documents (valid, with a file, malformed, invalid name, heading, empty): whatever a combination means, the call
+		// returns. Calls with the massive option run on real goroutines: 60 s watchdog.
+		c12OptionMatrix(c)
 		if after := fsx.Snapshot(jail.Root); !after.Equal(before) {
 			c.Violation("C12|verify-changed-fs", fsx.Diff(before, after), 0, nil)
 		}
